@@ -20,6 +20,7 @@ aa,<s>,<o>  ma,<s>,<o>           append_all_results / merge_all_results
 mao,<s>,<o>                      merge_all_results of the source before the repair (model only)
 cb,<s1>,<s2>                     s<k> = combine_simulation_results(s1, s2)
 g,<ref> mn,<ref> vr,<ref>        get_result / get_result_mean / get_result_var
+up,<s>                           s.params.unpacked_parameters (parameter names are sent hex(utf-8) encoded)
 eq,<ref>,<ref>                   a == b
 ```
 `ref` = `r<k>` or `s<k>.<name>.<index|L>`.
@@ -101,7 +102,7 @@ def showParams (p : Params) : String :=
   showList (fun e => e.1 ++ "=" ++ showList showRat e.2 ":") p.unp "&"
 
 def showSim (s : Sim) : String :=
-  showList (fun e => e.1 ++ ">" ++ toString e.2) s.dict "," ++ "@" ++ showParams s.params
+  showList (fun e => e.1 ++ ">" ++ toString e.2) s.dict "," ++ "@" ++ showParams s.params.norm
 
 def dump (st : St) : String :=
   "E=" ++ ";".intercalate st.errs.reverse ++ "|O=" ++ ";".intercalate st.outs.reverse ++
@@ -188,6 +189,10 @@ def stepOp (st : St) (i : Nat) (op : String) : Option St :=
       let a ← resolve st ref
       let r ← st.m.res[a]?
       pure (out st i (showER (getVar r)))
+  | ["up", s] => do      -- params.unpacked_parameters: the names in the order of the grid axes
+      let s ← s.toNat?
+      let x ← st.m.sims[s]?
+      pure (out st i ("names:" ++ showList (fun e => e.1) x.params.norm.unp "&"))
   | ["eq", ra, rb] => do
       let a ← resolve st ra
       let b ← resolve st rb
